@@ -209,16 +209,27 @@ def run_case(case, ctx):
     with ctx.lib("PopulationPropagator.propagate"):
         rmx = RateMatrix(data=K.copy()) if as_obj else K.copy()
         prop = PopulationPropagator(t, rmx)
-        pops = numpy.array(prop.propagate(p0.copy()))
-    ctx.require("shape", pops.shape == (Nt, n), {"got": list(pops.shape)})
+        # how the caller wrote the initial populations: float array; an integer array such as array([1, 0, 0]); single precision
+        p0_form = "float64"
+        if kind == "basis" and rng.random() < 0.6:
+            p0_form = "int"
+            p_arg = p0.astype(int)
+        elif kind != "basis" and rng.random() < 0.25:
+            p0_form = "float32"
+            p_arg = p0.astype(numpy.float32)
+            p0 = p_arg.astype(float)
+        else:
+            p_arg = p0.copy()
+        pops = numpy.array(prop.propagate(p_arg))
+    ctx.require("shape", pops.shape == (Nt, n), {"got": list(pops.shape), "p0_form": p0_form})
     x1 = float(numpy.linalg.norm(K, 1)) * dt
     bound_n = numpy.array([taylor_bound(x1, i) for i in range(Nt)]) + 64 * EPS
     ref = numpy.array([sl.expm(K * (tt - t.data[0])) @ p0 for tt in t.data])
     err = numpy.max(numpy.abs(pops - ref), axis=1)
     worst = int(numpy.argmax(err / bound_n))
     ctx.check("populations==expm", float(err[worst]), float(bound_n[worst]),
-              {"index": worst, "x": x1, "class": case["cls"], "n": n})
-    ctx.check("sum-conserved", float(numpy.max(numpy.abs(pops.sum(axis=1) - 1.0))), 64 * EPS * Nt * (1 + x1),
+              {"index": worst, "x": x1, "class": case["cls"], "n": n, "initial_populations_given_as": p0_form})
+    ctx.check("sum-conserved", float(numpy.max(numpy.abs(pops.sum(axis=1) - float(p0.sum())))), 64 * EPS * Nt * (1 + x1),
               {"class": case["cls"], "n": n, "Nt": Nt})
     ctx.check("non-negative", float(max(0.0, -numpy.min(pops))), 1e-13, {"class": case["cls"], "x": case["x"]})
     ctx.require("input-p0-unchanged", True)
